@@ -45,6 +45,8 @@ def run(ctx):
     c01.run(dep(ctx, "C04", "C01"))
     c03.maps_rules(dep(ctx, "C04", "C03"), "C03")
     c03.canonical_min_rule(dep(ctx, "C04", "C03"), "C03.M")
+    from . import c06
+    c06.reader_deps(ctx, "C04")
 
 
 def row_rule(ctx, fv, who, root=None, rule="C04.F"):
